@@ -3,7 +3,11 @@
  * markers, records execve arguments / exits / reaps, injects ONE planned failure in the chosen
  * process, and turns a hang into data.  x86_64 Linux.  Self-contained (does not use sysinj).
  *
- *   spawntrace -o LOG [-i task=T,nr=NAME,k=K,(err=E|ret=V)] [-t MILLISECONDS] -- PROG ARGS...
+ *   spawntrace -o LOG [-i task=T,nr=NAME,k=K,(err=E|ret=V)] [-t MILLISECONDS] [-f FD:r|w:PATH]... -- PROG ARGS...
+ *
+ * -f opens PATH on descriptor FD for PROG (not close-on-exec).  At the markers spawn:begin and
+ * returned:* the descriptor table of the marking task is logged:
+ *   {"ev":"fds","task":1,"at":"begin","pid":..,"pgrp":..,"fds":[{"fd":0,"link":"..","acc":0,"cloexec":0},..],"cwd":".."}
  *
  * Tasks are numbered in order of creation: 1 = PROG, 2 = the first process it forks, ...
  * The window opens at task 1's marker  write(-1, "MARK:spawn:begin")  and closes at task 1's
@@ -24,7 +28,9 @@
  * exit status: 0 normal end, 4 timeout, 2 tracer error.
  */
 #define _GNU_SOURCE
+#include <dirent.h>
 #include <errno.h>
+#include <fcntl.h>
 #include <signal.h>
 #include <stdarg.h>
 #include <stddef.h>
@@ -224,6 +230,59 @@ static void sb_vec(struct sbuf *b, pid_t pid, unsigned long long addr, int *isnu
     sb_puts(b, "]");
 }
 
+/* descriptor table, cwd and process group of a (stopped) task, as the tracer sees them */
+static void dump_fds(struct task *t, const char *at)
+{
+    char p[64], link[4096], line[256];
+    snprintf(p, sizeof p, "/proc/%d/fd", (int)t->pid);
+    DIR *d = opendir(p);
+    fprintf(LOG, "{\"ev\":\"fds\",\"task\":%d,\"at\":\"%s\",\"pid\":%d,\"pgrp\":%d,\"fds\":[", t->idx, at, (int)t->pid, (int)getpgid(t->pid));
+    int first = 1;
+    int nums[1024], n = 0;
+    struct dirent *de;
+    while (d && (de = readdir(d)) && n < 1024)
+        if (de->d_name[0] >= '0' && de->d_name[0] <= '9')
+            nums[n++] = atoi(de->d_name);
+    if (d)
+        closedir(d);
+    for (int i = 0; i < n; i++)      /* ascending order */
+        for (int j = i + 1; j < n; j++)
+            if (nums[j] < nums[i]) {
+                int x = nums[i];
+                nums[i] = nums[j];
+                nums[j] = x;
+            }
+    for (int i = 0; i < n; i++) {
+        snprintf(p, sizeof p, "/proc/%d/fd/%d", (int)t->pid, nums[i]);
+        ssize_t m = readlink(p, link, sizeof link - 1);
+        if (m < 0)
+            continue;
+        link[m] = 0;
+        long flags = 0;
+        snprintf(p, sizeof p, "/proc/%d/fdinfo/%d", (int)t->pid, nums[i]);
+        FILE *f = fopen(p, "re");
+        if (f) {
+            while (fgets(line, sizeof line, f))
+                if (!strncmp(line, "flags:", 6))
+                    flags = strtol(line + 6, NULL, 8);
+            fclose(f);
+        }
+        struct sbuf b = {0};
+        sb_jstr(&b, link);
+        fprintf(LOG, "%s{\"fd\":%d,\"link\":%s,\"acc\":%ld,\"cloexec\":%d}", first ? "" : ",", nums[i], b.p, flags & O_ACCMODE,
+                (flags & O_CLOEXEC) ? 1 : 0);
+        free(b.p);
+        first = 0;
+    }
+    snprintf(p, sizeof p, "/proc/%d/cwd", (int)t->pid);
+    ssize_t m = readlink(p, link, sizeof link - 1);
+    link[m < 0 ? 0 : m] = 0;
+    struct sbuf b = {0};
+    sb_jstr(&b, link);
+    fprintf(LOG, "],\"cwd\":%s}\n", b.p);
+    free(b.p);
+}
+
 static void on_alarm(int sig)
 {
     (void)sig;
@@ -248,6 +307,10 @@ static void sys_enter(struct task *t, struct user_regs_struct *r)
             sb_jstr(&b, m + 5);
             fprintf(LOG, "{\"ev\":\"mark\",\"task\":%d,\"text\":%s,\"execd\":%s}\n", t->idx, b.p, t->execd ? "true" : "false");
             free(b.p);
+            if (!strcmp(m + 5, "spawn:begin"))
+                dump_fds(t, "begin");
+            else if (!strncmp(m + 5, "returned:", 9))
+                dump_fds(t, "returned");
             if (t->idx == 1 && !strcmp(m + 5, "spawn:begin")) {
                 window = 1;
                 t->inwin = 1;
@@ -361,6 +424,8 @@ static void sys_exit(struct task *t, struct user_regs_struct *r)
 int main(int argc, char **argv)
 {
     const char *logpath = NULL;
+    const char *opens[8];
+    int nopen = 0;
     long timeout_ms = 10000;
     int ai = 1;
     for (; ai < argc; ai++) {
@@ -371,6 +436,8 @@ int main(int argc, char **argv)
             logpath = argv[++ai];
         else if (!strcmp(argv[ai], "-t") && ai + 1 < argc)
             timeout_ms = atol(argv[++ai]);
+        else if (!strcmp(argv[ai], "-f") && ai + 1 < argc && nopen < 8)
+            opens[nopen++] = argv[++ai];
         else if (!strcmp(argv[ai], "-i") && ai + 1 < argc) {
             char *spec = strdup(argv[++ai]), *tok, *sp = NULL;
             INJ.on = 1;
@@ -404,6 +471,21 @@ int main(int argc, char **argv)
     if (root < 0)
         die("fork: %s", strerror(errno));
     if (root == 0) {
+        /* -f FD:r|w:PATH : descriptors the program finds open (for Stdio::RawFd) */
+        for (int i = 0; i < nopen; i++) {
+            int want = atoi(opens[i]);
+            const char *c1 = strchr(opens[i], ':');
+            if (!c1 || !c1[1] || c1[2] != ':')
+                _exit(125);
+            int fd = open(c1 + 3, c1[1] == 'w' ? (O_WRONLY | O_CREAT | O_APPEND) : O_RDONLY, 0644);
+            if (fd < 0)
+                _exit(125);
+            if (fd != want) {
+                if (dup2(fd, want) < 0)
+                    _exit(125);
+                close(fd);
+            }
+        }
         if (ptrace(PTRACE_TRACEME, 0, 0, 0) < 0)
             _exit(126);
         raise(SIGSTOP);
